@@ -5,10 +5,12 @@
 (* Text is a sequence of SYMBOLS.  One symbol = one character class or one *)
 (* atomic lexeme whose inner structure is irrelevant for the grammar:      *)
 (*   letters   "a" "A" "b" "B"   (two bases x lower / not-lower case)      *)
+(*             "h" "H"           (a hexadecimal letter a-f, lower / upper; *)
+(*                                used in IP literal hosts)                *)
 (*   digits    "N<decimal>"      (digit strings; identity = the number)    *)
 (*   words     "T" "F" "INF" "NAN"  (TRUE FALSE INF NAN, any case)         *)
-(*   lexemes   "ex" "ex2" (exponent suffixes e+20 / e-07), "DT" (a 25 char *)
-(*             CIM datetime)                                               *)
+(*   lexemes   "ex" "ex2" (exponent suffixes e+20 / e-07: the two signs    *)
+(*             python's repr() prints), "DT" (a 25 char CIM datetime)      *)
 (*   punctuation "sl" / "col" : "dot" . "eq" = "com" , "dq" double quote   *)
 (*             "sq" single quote "bs" backslash "lf" newline "sp" space    *)
 (*             "mi" - "lb" [ "rb" ] "at" @ "ot" (any other character)      *)
@@ -33,7 +35,7 @@ F(name, holds) == IF holds THEN {} ELSE {name}
 MinOf(S) == CHOOSE x \in S : \A y \in S : x <= y
 
 (* ------------------------------ symbols -------------------------------- *)
-Letters == {"a", "A", "b", "B"}
+Letters == {"a", "A", "b", "B", "h", "H"}
 DigitToks == {"N0", "N1", "N5", "N127", "N128", "N255", "N32767", "N32768",
               "N65535", "N2147483647", "N2147483648", "N4294967295",
               "N9223372036854775807", "N9223372036854775808",
@@ -43,7 +45,8 @@ WordToks == {"T", "F", "INF", "NAN"}
 WordSyms == Letters \cup DigitToks \cup WordToks          \* \w
 HostSyms == WordSyms \cup {"dot", "col", "at", "lb", "rb"} \* [\w.:@\[\]]
 SchemeSyms == WordSyms \cup {"mi"}                        \* [\w\-]
-Lower(c) == CASE c = "A" -> "a" [] c = "B" -> "b" [] OTHER -> c
+Lower(c) == CASE c = "A" -> "a" [] c = "B" -> "b" [] c = "H" -> "h"
+              [] OTHER -> c
 LowerSeq(q) == [i \in DOMAIN q |-> Lower(q[i])]
 NameEq(x, y) == LowerSeq(x) = LowerSeq(y)
 
@@ -55,7 +58,11 @@ VFixed == [realprint |-> "float",   \* "repr": Real32/Real64 print debug repr
            dt |-> "exact",          \* "prefix": CIMDateTime ignores a tail
            sort |-> "lowered",      \* "raw": keys sorted before lower-casing
            kbval |-> "plus",        \* "star": empty unquoted value matches
-           canonval |-> "asis"]     \* "lowered": canonical lowers strings
+           canonval |-> "asis",     \* "lowered": canonical lowers strings
+           hostcase |-> "all",      \* "dnsonly": canonical keeps the case of
+                                    \*   a host that is an IP literal '[..]'
+           expsign |-> "both"]      \* "minus": REAL_VALUE exponent 'E-?'
+                                    \*   (the '+' repr() prints is rejected)
 (* most permissive parser (for "reads as a URI" in the requirement)        *)
 VPerm == [VFixed EXCEPT !.dt = "prefix"]
 
@@ -68,6 +75,8 @@ VLegacyDt == [VFixed EXCEPT !.dt = "prefix"]
 VSortRaw == [VFixed EXCEPT !.sort = "raw"]
 VKbStar == [VFixed EXCEPT !.kbval = "star"]
 VCanonVal == [VFixed EXCEPT !.canonval = "lowered"]
+VHostLit == [VFixed EXCEPT !.hostcase = "dnsonly"]
+VExpSign == [VFixed EXCEPT !.expsign = "minus"]
 (* variant chosen by environment (the harness probes the tree)             *)
 Env(n) == n \in DOMAIN IOEnv /\ IOEnv[n] = "1"
 VEnv == [VFixed EXCEPT
@@ -75,7 +84,9 @@ VEnv == [VFixed EXCEPT
            !.realexp = IF Env("C07_NEEDSDOT") THEN "needsdot" ELSE @,
            !.lf = IF Env("C07_LFREJECT") THEN "reject" ELSE @,
            !.histcolon = IF Env("C07_HISTNOCOLON") THEN "nsonly" ELSE @,
-           !.dt = IF Env("C07_DTPREFIX") THEN "prefix" ELSE @]
+           !.dt = IF Env("C07_DTPREFIX") THEN "prefix" ELSE @,
+           !.hostcase = IF Env("C07_HOSTLIT") THEN "dnsonly" ELSE @,
+           !.expsign = IF Env("C07_EXPMINUS") THEN "minus" ELSE @]
 
 (* ------------------------------ data ----------------------------------- *)
 (* value: t in string char16 boolean int real datetime reference;          *)
@@ -98,9 +109,10 @@ Esc(q) == FlattenSeq([i \in DOMAIN q |->
 CaseOf(fmt, q) == IF fmt = "canonical" THEN LowerSeq(q) ELSE q
 
 (* code point order of the concretisation: digits < upper case < lower case *)
-Rank(c) == CASE c \in DigitToks -> 1 [] c = "A" -> 2 [] c = "B" -> 3
-             [] c \in WordToks -> 4 [] c = "a" -> 5 [] c = "b" -> 6
-             [] OTHER -> 0
+(* (hex letters a-f precede the concrete letters chosen for a, b)            *)
+Rank(c) == CASE c \in DigitToks -> 1 [] c = "H" -> 2 [] c = "A" -> 3
+             [] c = "B" -> 4 [] c \in WordToks -> 5 [] c = "h" -> 6
+             [] c = "a" -> 7 [] c = "b" -> 8 [] OTHER -> 0
 RECURSIVE SeqLess(_, _)
 SeqLess(x, y) == IF x = <<>> THEN y # <<>>
                  ELSE IF y = <<>> THEN FALSE
@@ -122,9 +134,17 @@ Join(qs) == IF qs = <<>> THEN <<>>
 ReprJunk(s) == <<"A", "ot", "a", "eq", "sq", "a", "sq", "com", "sp">> \o s
                \o <<"ot">>
 
+(* host kinds: DNS name / IPv4 address (letters, digits, dots, port,        *)
+(* userinfo) or IP literal in square brackets (IPv6: hex letters, colons).   *)
+(* Both are case insensitive (path equality lower-cases the whole host).     *)
+IsIpLiteral(host) == host # <<>> /\ host[1] = "lb"
+CaseHost(V, fmt, host) ==
+  IF V.hostcase = "dnsonly" /\ IsIpLiteral(host) THEN host
+  ELSE CaseOf(fmt, host)
+
 Header(V, p, fmt) ==
   (IF p.hashost /\ fmt # "cimobject"
-   THEN <<"sl", "sl">> \o CaseOf(fmt, p.host) ELSE <<>>)
+   THEN <<"sl", "sl">> \o CaseHost(V, fmt, p.host) ELSE <<>>)
   \o (IF p.hashost \/ fmt \notin {"cimobject", "historical"}
       THEN <<"sl">> ELSE <<>>)
   \o (IF p.hasns THEN CaseOf(fmt, p.ns) ELSE <<>>)
@@ -264,7 +284,10 @@ IsReal(V, x) ==
          es == {i \in DOMAIN y : y[i] \in {"ex", "ex2"}}
          e == IF es = {} THEN Len(y) + 1 ELSE MinOf(es)
          hasexp == es # {}        \* exponent lexeme, more digits may follow
-         expok == Cardinality(es) <= 1 /\ DigitsOpt(SubSeq(y, e + 1, Len(y)))
+         \* exponent sign: 'E[+-]?' ("ex" = 'e+..', "ex2" = 'e-..')
+         signok == V.expsign = "both" \/ ~hasexp \/ y[e] = "ex2"
+         expok == Cardinality(es) <= 1 /\ signok
+                  /\ DigitsOpt(SubSeq(y, e + 1, Len(y)))
          m == SubSeq(y, 1, e - 1)
          dots == {i \in DOMAIN m : m[i] = "dot"}
      IN expok /\
